@@ -37,7 +37,7 @@ func init() {
 			"permutations, multisets (exact duplicates), re-encodings of the same share (1..3 trailing bytes and tails of 62..131, 200, 513 bytes), public polynomials with more coefficients than t, members whose share key is the identity (root of the polynomial at their point), junk catalogue (len 0,1,2,65,66+k, off-curve, identity, " +
 			"x+p / y+p coordinates, wrong index, index>=n incl. a genuine evaluation there, other message, foreign polynomial), messages empty/1B/1MiB, secrets 0,1,r-1,random, " +
 			"degenerate polynomials; large groups n in {65,100,255,256,257,300} with t<=4 and members at indices 63..66, 254..257, n-1 replayed under several encodings; " +
-			"hist = a sequence of sign/verify/recover calls in one process sharing a message buffer that is overwritten in place between calls; sign/blssign = the signing side; non-trivial = anything but the first t shares in index order; distinct = distinct case line",
+			"hist = a sequence of sign/verify/recover calls in one process sharing a message buffer that is overwritten in place between calls, and sequences of 2..7 Recover calls over different member sequences in arrival order (n in 11..160, index lists whose decimal digits concatenate identically), verdict after each call; sign/blssign = the signing side; non-trivial = anything but the first t shares in index order; distinct = distinct case line",
 		Gen:  gen,
 		Exec: Exec,
 		// the exhaustive space is stated in Rule (tier-specific); everything beyond it is sampled
@@ -824,6 +824,15 @@ func gen(tier string, rng *h.Rng, emit0 func(string)) {
 	}
 	for k := 0; k < nh; k++ {
 		emit(History(rng, k))
+	}
+	// 3d. histories of Recover calls over different member sequences (n > 10, arrival order, digit-colliding
+	// index lists): the verdict is taken after EACH call
+	nrh := 40
+	if thorough {
+		nrh = 400
+	}
+	for k := 0; k < nrh; k++ {
+		emit(RecoverHistory(rng, k))
 	}
 	// 4. the signing side
 	nsig := 40
